@@ -123,14 +123,20 @@ Lemma uno_loop_framed : forall h0 fuel h l1 l2 out h' res,
   framed h0 h' /\ all_fresh h0 h' res.
 Proof.
   intros h0. induction fuel as [|fuel IH]; intros h l1 l2 out h' res F A1 A2 Ao H.
-  - destruct l1 as [|e1 r1]; [|destruct l2 as [|e2 r2]]; cbn [uno_loop_h] in H; try discriminate;
-      inversion H; subst; split; auto; repeat apply all_fresh_app; auto.
-  - destruct l1 as [|e1 r1]; [|destruct l2 as [|e2 r2]]; cbn [uno_loop_h] in H;
-      try (inversion H; subst; split; auto; repeat apply all_fresh_app; auto; fail).
-    destruct (uno_step_h h e1 r1 e2 r2) as [[h1 [em [n1 n2]]]| |] eqn:S; cbn [bind fst snd] in H; try discriminate.
-    destruct (uno_step_framed _ _ _ _ _ _ _ _ _ _ F A1 A2 S) as (F1 & G1 & Aem & An1 & An2).
-    eapply IH; [exact F1| | | |exact H]; auto.
-    apply all_fresh_app; auto. eapply all_fresh_grow; eauto.
+  - destruct l1 as [|e1 r1]; [|destruct l2 as [|e2 r2]]; cbn [uno_loop_h] in H; try discriminate.
+    + assert (h' = h) by congruence. assert (res = out ++ [] ++ l2) by congruence. subst.
+      split; auto; repeat apply all_fresh_app; auto.
+    + assert (h' = h) by congruence. assert (res = out ++ (e1 :: r1) ++ []) by congruence. subst.
+      split; auto; repeat apply all_fresh_app; auto.
+  - destruct l1 as [|e1 r1]; [|destruct l2 as [|e2 r2]]; cbn [uno_loop_h] in H.
+    + assert (h' = h) by congruence. assert (res = out ++ [] ++ l2) by congruence. subst.
+      split; auto; repeat apply all_fresh_app; auto.
+    + assert (h' = h) by congruence. assert (res = out ++ (e1 :: r1) ++ []) by congruence. subst.
+      split; auto; repeat apply all_fresh_app; auto.
+    + destruct (uno_step_h h e1 r1 e2 r2) as [[h1 [em [n1 n2]]]| |] eqn:S; cbn [bind fst snd] in H; try discriminate.
+      destruct (uno_step_framed _ _ _ _ _ _ _ _ _ _ F A1 A2 S) as (F1 & G1 & Aem & An1 & An2).
+      eapply IH; [exact F1| | | |exact H]; auto.
+      apply all_fresh_app; auto. eapply all_fresh_grow; eauto.
 Qed.
 
 Theorem uno_h_framed : forall h L1 L2 h' L',
@@ -154,11 +160,204 @@ Proof.
   destruct (copied_list _ _ _ _ _ _ C1 LE1') as (_ & _ & _ & _ & FR1).
   destruct (copied_list _ _ _ _ _ _ C2 LE2) as (_ & _ & _ & _ & FR2).
   assert (F2 : framed h h2) by (eapply framed_copied; [eapply framed_copied; [apply framed_refl|eauto]|eauto]).
-  destruct (uno_loop_framed h _ h2 ks1 ks2 [] h3 out F2) as (F3 & Ao); auto.
+  destruct (uno_loop_framed h (length ks1 + length ks2) h2 ks1 ks2 [] h3 out F2) as (F3 & Ao); [| | |exact LP|].
   { intros k I. specialize (FR1 _ I). unfold fresh_in. lia. }
   { intros k I. specialize (FR2 _ I). unfold fresh_in. lia. }
   { apply all_fresh_nil. }
   destruct (new_list_framed h h3 out F3 Ao) as (F4 & B4 & L4).
   inversion H; subst h' L'. split; auto. split; auto. exists out. split; auto.
   intros k I. specialize (Ao _ I). unfold new_list, alloc, fresh_in in *; cbn [fst]. rewrite app_length; cbn. lia.
+Qed.
+
+(* ------------------------------------------------------------------------- *)
+(* B. refinement *)
+
+(* every event readable in h reads the same in h' *)
+Definition keeps (h h' : heap) : Prop := forall l v, ev_at h l = Some v -> ev_at h' l = Some v.
+
+Lemma keeps_refl : forall h, keeps h h.
+Proof. intros h l v H. exact H. Qed.
+
+Lemma keeps_trans : forall a b c, keeps a b -> keeps b c -> keeps a c.
+Proof. intros a b c K1 K2 l v H. auto. Qed.
+
+Lemma keeps_ext : forall h h', ext h h' -> keeps h h'.
+Proof. intros h h' E l v H. eapply ev_at_ext; eauto. Qed.
+
+Lemma keeps_reads : forall h h' ks vs, keeps h h' -> Forall2 (reads h) ks vs -> Forall2 (reads h') ks vs.
+Proof. intros h h' ks vs K F. induction F; constructor; auto. apply K. exact H. Qed.
+
+Definition opt_reads (h : heap) (ol : option loc) (ov : option event) : Prop :=
+  match ol, ov with
+  | Some l, Some v => ev_at h l = Some v
+  | None, None => True
+  | _, _ => False
+  end.
+
+Local Open Scope Z_scope.
+
+Lemma split_event_refines : forall h e dt v,
+  wf h -> ev_at h e = Some v ->
+  exists h' a ob, split_event_h h e dt = Ok (h', (a, ob)) /\
+    ev_at h' a = Some (fst (split_event v dt)) /\ opt_reads h' ob (snd (split_event v dt)) /\
+    keeps h h' /\ wf h'.
+Proof.
+  intros h e dt v W H. unfold split_event_h, split_event.
+  rewrite (rd_ts_ok _ _ _ H), (rd_dur_ok _ _ _ H). cbn [bind].
+  destruct ((ts v <? dt) && (dt <? ts v + dur v)).
+  2:{ exists h, e, None. cbn [fst snd opt_reads]. split; [reflexivity|]. split; [exact H|]. split; [exact I|].
+      split; [apply keeps_refl|exact W]. }
+  pose proof (ev_at_lt _ _ _ H) as B.
+  destruct (pdeepcopy_total h e W B) as (h1 & e1 & P1). rewrite P1. cbn [bind fst snd].
+  destruct (pdeepcopy_inv _ _ _ _ P1) as (m1 & C1).
+  destruct (pdeepcopy_ev _ _ _ _ _ P1 H) as (H1e1 & G1 & E1).
+  pose proof (ev_at_ext _ _ _ _ E1 H) as H1e.
+  pose proof (cp_wf _ _ _ _ _ C1 W) as W1. pose proof (ext_length _ _ E1) as LE1.
+  assert (B1 : (e < length h1)%nat) by lia.
+  destruct (pdeepcopy_total h1 e W1 B1) as (h2 & e2 & P2). rewrite P2. cbn [bind fst snd].
+  destruct (pdeepcopy_inv _ _ _ _ P2) as (m2 & C2).
+  destruct (pdeepcopy_ev _ _ _ _ _ P2 H1e) as (H2e2 & G2 & E2).
+  pose proof (ev_at_ext _ _ _ _ E2 H1e) as H2e. pose proof (ev_at_ext _ _ _ _ E2 H1e1) as H2e1.
+  pose proof (cp_wf _ _ _ _ _ C2 W1) as W2.
+  pose proof (copied_fresh _ _ _ _ _ C1) as F1. pose proof (copied_fresh _ _ _ _ _ C2) as F2.
+  rewrite (rd_ts_ok _ _ _ H2e). cbn [bind].
+  (* e1.duration = dt - e.timestamp *)
+  destruct (wr_dur_valid h2 e1 v (dt - ts v) H2e1) as (h3 & W3 & H3e1 & O3). rewrite W3. cbn [bind].
+  assert (H3e2 : ev_at h3 e2 = Some v) by (rewrite O3 by lia; exact H2e2).
+  (* e2.timestamp = dt *)
+  destruct (wr_ts_valid h3 e2 v dt H3e2) as (h4 & W4 & H4e2 & O4). rewrite W4. cbn [bind].
+  assert (H4e : ev_at h4 e = Some v) by (rewrite O4, O3 by lia; exact H2e).
+  rewrite (rd_ts_ok _ _ _ H4e), (rd_dur_ok _ _ _ H4e). cbn [bind].
+  destruct (wr_dur_valid h4 e2 _ (ts v + dur v - dt) H4e2) as (h5 & W5 & H5e2 & O5). rewrite W5. cbn [bind].
+  exists h5, e1, (Some e2). cbn [fst snd opt_reads]. split; [reflexivity|].
+  split; [rewrite O5, O4 by lia; exact H3e1|]. split; [exact H5e2|]. split.
+  - intros l x Hl. pose proof (ev_at_lt _ _ _ Hl) as Bl.
+    rewrite O5, O4, O3 by lia. eapply ev_at_ext; [exact E2|]. eapply ev_at_ext; [exact E1|exact Hl].
+  - assert (R : retags (fun l => l = e1 \/ l = e2) h2 h5) by solve_retags.
+    eapply retags_wf; eauto.
+Qed.
+
+Local Open Scope nat_scope.
+
+Lemma reads_app : forall h a b va vb, Forall2 (reads h) a va -> Forall2 (reads h) b vb ->
+  Forall2 (reads h) (a ++ b) (va ++ vb).
+Proof. intros. apply Forall2_app; auto. Qed.
+
+Lemma uno_step_refines : forall h e1 r1 e2 r2 v1 vr1 v2 vr2,
+  wf h -> reads h e1 v1 -> Forall2 (reads h) r1 vr1 -> reads h e2 v2 -> Forall2 (reads h) r2 vr2 ->
+  match uno_step v1 vr1 v2 vr2 with
+  | Next emit l1 l2 =>
+      exists h' emit' l1' l2', uno_step_h h e1 r1 e2 r2 = Ok (h', (emit', (l1', l2'))) /\
+        Forall2 (reads h') emit' emit /\ Forall2 (reads h') l1' l1 /\ Forall2 (reads h') l2' l2 /\
+        keeps h h' /\ wf h'
+  | Raise c => uno_step_h h e1 r1 e2 r2 = Err c
+  end.
+Proof.
+  intros h e1 r1 e2 r2 v1 vr1 v2 vr2 W H1 F1 H2 F2.
+  unfold uno_step_h, uno_step.
+  rewrite (rd_ts_ok _ _ _ H1), (rd_dur_ok _ _ _ H1), (rd_ts_ok _ _ _ H2), (rd_dur_ok _ _ _ H2).
+  cbn [bind]. cbv zeta.
+  destruct (ts v2 + dur v2 <=? ts v1)%Z.
+  { exists h, [e2], (e1 :: r1), r2. split; [reflexivity|].
+    split; [constructor; [exact H2|constructor]|]. split; [constructor; auto|]. split; [exact F2|].
+    split; [apply keeps_refl|exact W]. }
+  destruct (ts v1 + dur v1 <=? ts v2)%Z.
+  { exists h, [e1], r1, (e2 :: r2). split; [reflexivity|].
+    split; [constructor; [exact H1|constructor]|]. split; [exact F1|]. split; [constructor; auto|].
+    split; [apply keeps_refl|exact W]. }
+  (* the optional first split, on both sides *)
+  assert (S1 : exists h1 em oe2 emv oe2v,
+    (if (ts v2 <? ts v1)%Z
+     then bind (split_event_h h e2 (ts v1)) (fun r => Ok (fst r, ([fst (snd r)], snd (snd r))))
+     else Ok (h, ([], Some e2))) = Ok (h1, (em, oe2)) /\
+    (if (ts v2 <? ts v1)%Z
+     then let '(e2_before, e2') := split_event v2 (ts v1) in ([e2_before], e2')
+     else ([], Some v2)) = (emv, oe2v) /\
+    Forall2 (reads h1) em emv /\ opt_reads h1 oe2 oe2v /\ keeps h h1 /\ wf h1).
+  { destruct (ts v2 <? ts v1)%Z.
+    - destruct (split_event_refines h e2 (ts v1) v2 W H2) as (hx & a & ob & SE & Ra & Rb & K & Wx).
+      rewrite SE. cbn [bind fst snd]. destruct (split_event v2 (ts v1)) as [vb ov] eqn:SV. cbn [fst snd] in *.
+      exists hx, [a], ob, [vb], ov. split; [reflexivity|]. split; [reflexivity|].
+      split; [constructor; [exact Ra|constructor]|]. split; [exact Rb|]. split; [exact K|exact Wx].
+    - exists h, [], (Some e2), [], (Some v2). split; [reflexivity|]. split; [reflexivity|].
+      split; [constructor|]. split; [exact H2|]. split; [apply keeps_refl|exact W]. }
+  destruct S1 as (h1 & em & oe2 & emv & oe2v & Eh & Ev & Rem & Roe & K1 & W1).
+  rewrite Eh, Ev. cbn [bind fst snd].
+  destruct (ts v2 + dur v2 >? ts v1 + dur v1)%Z.
+  - destruct oe2 as [e2'|], oe2v as [v2'|]; cbn [opt_reads] in Roe; try contradiction; [|reflexivity].
+    destruct (split_event_refines h1 e2' (ts v1 + dur v1)%Z v2' W1 Roe) as (h2 & x & oa & SE & _ & Ra & K2 & W2).
+    rewrite SE. cbn [bind fst snd]. destruct (split_event v2' (ts v1 + dur v1)%Z) as [vx ova] eqn:SV. cbn [fst snd] in *.
+    pose proof (keeps_trans _ _ _ K1 K2) as K.
+    do 4 eexists. split; [reflexivity|].
+    split; [apply reads_app; [apply (keeps_reads _ _ _ _ K2 Rem)|constructor; [apply K; exact H1|constructor]]|].
+    split; [apply (keeps_reads _ _ _ _ K F1)|].
+    split; [|split; auto].
+    constructor; [|apply (keeps_reads _ _ _ _ K F2)].
+    destruct oa as [a'|], ova as [va'|]; cbn [opt_reads] in Ra; try contradiction; auto.
+    apply K2. exact Roe.
+  - do 4 eexists. split; [reflexivity|]. split; [exact Rem|].
+    split; [constructor; [apply K1; exact H1|apply (keeps_reads _ _ _ _ K1 F1)]|].
+    split; [apply (keeps_reads _ _ _ _ K1 F2)|split; auto].
+Qed.
+
+Lemma Forall2_length' : forall {X Y} (R : X -> Y -> Prop) l l', Forall2 R l l' -> length l = length l'.
+Proof. intros X Y R l l' F. induction F; cbn; auto. Qed.
+
+Lemma uno_loop_refines : forall fuel h l1 l2 out v1 v2 vout,
+  wf h -> Forall2 (reads h) l1 v1 -> Forall2 (reads h) l2 v2 -> Forall2 (reads h) out vout ->
+  match uno_loop fuel v1 v2 vout with
+  | Ok r => exists h' res, uno_loop_h fuel h l1 l2 out = Ok (h', res) /\ Forall2 (reads h') res r
+  | Err c => uno_loop_h fuel h l1 l2 out = Err c
+  | OutOfFuel => uno_loop_h fuel h l1 l2 out = OutOfFuel
+  end.
+Proof.
+  induction fuel as [|fuel IH]; intros h l1 l2 out v1 v2 vout W F1 F2 Fo.
+  - destruct F1 as [|e1 x1 r1 vr1 H1 F1]; [|destruct F2 as [|e2 x2 r2 vr2 H2 F2]]; cbn [uno_loop uno_loop_h];
+      try reflexivity; do 2 eexists; (split; [reflexivity|]); repeat apply reads_app; auto; constructor; auto.
+  - destruct F1 as [|e1 x1 r1 vr1 H1 F1]; [|destruct F2 as [|e2 x2 r2 vr2 H2 F2]]; cbn [uno_loop uno_loop_h];
+      try (do 2 eexists; (split; [reflexivity|]); repeat apply reads_app; auto; constructor; auto; fail).
+    pose proof (uno_step_refines h e1 r1 e2 r2 x1 vr1 x2 vr2 W H1 F1 H2 F2) as S.
+    destruct (uno_step x1 vr1 x2 vr2) as [emit n1 n2|c].
+    + destruct S as (h1 & em & m1 & m2 & SE & Rem & R1 & R2 & K & W1). rewrite SE. cbn [bind fst snd].
+      apply IH; auto. apply reads_app; auto. apply (keeps_reads _ _ _ _ K Fo).
+    + rewrite S. reflexivity.
+Qed.
+
+Theorem uno_h_refines : forall h L1 L2 vs1 vs2,
+  wf h -> list_at h L1 = Some vs1 -> list_at h L2 = Some vs2 ->
+  match union_no_overlap vs1 vs2 with
+  | Ok r => exists h' L', union_no_overlap_h h L1 L2 = Ok (h', L') /\ list_at h' L' = Some r
+  | Err c => union_no_overlap_h h L1 L2 = Err c
+  | OutOfFuel => union_no_overlap_h h L1 L2 = OutOfFuel
+  end.
+Proof.
+  intros h L1 L2 vs1 vs2 W A1 A2.
+  destruct (list_at_inv _ _ _ A1) as (p1 & ks1 & LL1 & EV1).
+  destruct (list_at_inv _ _ _ A2) as (p2 & ks2 & LL2 & EV2).
+  unfold union_no_overlap_h, union_no_overlap.
+  destruct (pdeepcopy_total h L1 W (lookup_lt _ _ _ LL1)) as (h1 & L1' & P1).
+  destruct (pdeepcopy_inv _ _ _ _ P1) as (m1 & C1). rewrite P1. cbn [bind fst snd].
+  pose proof (cp_ext _ _ _ _ _ C1) as E1. pose proof (cp_wf _ _ _ _ _ C1 W) as W1.
+  pose proof (ext_length _ _ E1) as G1. pose proof (lookup_lt _ _ _ LL2) as B2.
+  assert (B2' : L2 < length h1) by lia.
+  destruct (pdeepcopy_total h1 L2 W1 B2') as (h2 & L2' & P2).
+  destruct (pdeepcopy_inv _ _ _ _ P2) as (m2 & C2). rewrite P2. cbn [bind fst snd].
+  pose proof (cp_ext _ _ _ _ _ C2) as E2. pose proof (cp_wf _ _ _ _ _ C2 W1) as W2.
+  (* the two copied lists *)
+  destruct (copied_cell _ _ _ _ _ _ _ C1 (cp_root _ _ _ _ _ C1)) as (_ & t1 & k1 & ks1' & La & Lb & Fa).
+  rewrite (ext_lookup_some _ _ _ _ E1 LL1) in La. inversion La; subst t1 k1.
+  destruct (copied_cell _ _ _ _ _ _ _ C2 (cp_root _ _ _ _ _ C2)) as (_ & t2 & k2 & ks2' & Lc & Ld & Fc).
+  rewrite (ext_lookup_some _ _ _ _ E2 (ext_lookup_some _ _ _ _ E1 LL2)) in Lc. inversion Lc; subst t2 k2.
+  unfold list_elems. rewrite (ext_lookup_some _ _ _ _ E2 Lb), Ld. cbn [bind].
+  destruct (copied_elems _ _ _ _ _ _ _ _ C1 Fa EV1) as (EVa & _).
+  destruct (copied_elems _ _ _ _ _ _ _ _ C2 Fc (evs_at_ext _ _ _ _ E1 EV2)) as (EVc & _).
+  pose proof (evs_at_ext _ _ _ _ E2 EVa) as EVa2.
+  apply evs_at_Forall2 in EVa2. apply evs_at_Forall2 in EVc.
+  rewrite (Forall2_length' _ _ _ EVa2), (Forall2_length' _ _ _ EVc).
+  pose proof (uno_loop_refines (length vs1 + length vs2) h2 ks1' ks2' [] vs1 vs2 [] W2 EVa2 EVc (Forall2_nil _)) as LP.
+  destruct (uno_loop (length vs1 + length vs2) vs1 vs2 []) as [r|c|].
+  - destruct LP as (h3 & res & LP & R). rewrite LP. cbn [bind fst snd].
+    do 2 eexists. split; [reflexivity|]. apply list_at_new_list. now apply evs_at_Forall2.
+  - rewrite LP. reflexivity.
+  - rewrite LP. reflexivity.
 Qed.
